@@ -13,8 +13,9 @@ Well-formed: every cell of the height x width board lies in exactly one region; 
 import itertools
 
 NAME = "norinori"
-STATUS = "model+differential"
-THEOREMS = []
+STATUS = "theorem"
+THEOREMS = ["Cspuz.C11.Norinori.program_iff_rules", "Cspuz.C11.Norinori.total"]
+LEAN_FILE = "C11_Norinori"
 LEAN_CMD = "puz_norinori"
 
 
